@@ -57,7 +57,7 @@ Qed.
 Open Scope R_scope.
 
 (* ---- the wrapping group's attributes *)
-Definition wrap_attrs : attrs := MkAttrs true 255 255 BNormal false None false.
+Definition wrap_attrs : attrs := MkAttrs true 255 255 BNormal false None false 255.
 
 Lemma byte_255 : @byte ROps 255 = 1.
 Proof. unfold byte. cbn. lra. Qed.
@@ -119,7 +119,7 @@ Proof.
   - cbn [sample_layer attrs_of bbox_of] in *.
     destruct (negb (at_vis at_)); [constructor|].
     destruct (is_zero_rect (intersect vp rc)); [constructor|].
-    pose proof (paste_abs vp rc (@plane_at ROps alpha (rwidth rc)) (@f0 ROps) x y Hin) as Pa.
+    pose proof (paste_abs vp rc (@plane_at ROps (at_den at_) alpha (rwidth rc)) (@f0 ROps) x y Hin) as Pa.
     destruct vp as [[[vl vt] vr] vb], rc as [[[bl bt] br] bb_]. rewrite Pa, Hout.
     constructor; [|constructor]. repeat eexists.
   - rewrite sample_group_unfold.
